@@ -71,7 +71,15 @@ class RunBackgroundTask(FnSpec):
         return [("parent-context-initialised", z3.And(Val.is_ref(F.t("ctx")), is_ctx(F.old, c),
                                                       z3.Implies(subcls(F.old.fld("__class__", c), con("ComponentContext")), z3.Select(F.old.g("g:cc_init"), c))))]
 
+    def init_ghost(self, eng, st):
+        # the scope TaskHandle.cancel() acts on: the one the handle carries when the task function is entered
+        st.ghost["scope0"] = st.fld("_cancel_scope", Val.a(st.env["task_handle"].t))
+
     def on_lib_call(self, eng, st, name, recv, pos):
+        if name == "CancelScope.__enter__":
+            # a cancel() issued between the spawn and the first step of the task acts on the scope the handle was created with:
+            # that scope - not a later replacement - must be the one the task function runs in
+            eng.oblige(st, "post", "runs-inside-the-scope-the-handle-was-created-with", recv.t == st.ghost["scope0"], "CancelScope.__enter__")
         if name == "AnyioEvent.set":
             # ordering: the finished event is set only after the task's own context has been left (closed)
             if any("enter#" in t and t.endswith("-raises") for t in st.tags):
@@ -90,8 +98,14 @@ class RunBackgroundTask(FnSpec):
         tr = F.new_st.trace
         news = [e for e in tr if e[0] == "new" and e[1] == "Context"]
         inits = [e for e in tr if e[0] == "spec_call" and e[1] == "_context.Context.__init__"]
+        rebinds = [e for e in tr if e[0] == "fstore" and e[2] in ("_cancel_scope", "_finished_event")]
+        scopes = [e for e in tr if e[0] == "cs_enter"]
+        fcalls = [i for i, e in enumerate(tr) if e[0] in ("opaque", "opaque-raise") and e[1].t.eq(F.t("func"))]
         out = [("finished-event-set-on-every-outcome", ev_is_set(F.new, finished_event(F.old, h))),
-               ("exactly-one-own-context", z3.BoolVal(len(news) == 1 and len(inits) == 1))]
+               ("exactly-one-own-context", z3.BoolVal(len(news) == 1 and len(inits) == 1)),
+               ("handle-scope-and-event-never-rebound", z3.BoolVal(not rebinds)),
+               ("one-scope-entered-before-the-task-function-is-called",
+                z3.BoolVal(len(scopes) == 1 and all(tr.index(scopes[0]) < i for i in fcalls)))]
         if len(inits) == 1:
             out.append(("context-parent-is-the-given-context", inits[0][2]["parent"].t == F.t("ctx")))
         return out
@@ -311,6 +325,9 @@ def register(reg):
 
     def cs_enter(eng, st, cm, is_async, item):
         st.uses.add("A-CS")
+        st.trace.append(("cs_enter", cm))
+        if eng.spec is not None and hasattr(eng.spec, "on_lib_call"):
+            eng.spec.on_lib_call(eng, st, "CancelScope.__enter__", cm, [])
         return [Res(st, cm)]
 
     def cs_exit(eng, o, cm, is_async, item):
